@@ -370,20 +370,29 @@ func (x *Exec) ite(c *Term, a, b Value) Value {
 
 func (x *Exec) iteMap(c *Term, a, b *MapObj) *MapObj {
 	tb := x.tb
-	// same key sequence (common prefix) -> entry-wise merge
+	// entries are matched by (syntactically) equal keys, whatever their position
 	out := &MapObj{KT: a.KT, VT: a.VT}
-	n := 0
-	for n < len(a.Entries) && n < len(b.Entries) && x.sameKey(a.Entries[n].Key, b.Entries[n].Key) {
-		ea, eb := a.Entries[n], b.Entries[n]
-		out.Entries = append(out.Entries, MapEntry{Key: ea.Key, Present: tb.Ite(c, ea.Present, eb.Present), Val: x.ite(c, ea.Val, eb.Val)})
-		n++
-	}
+	used := make([]bool, len(b.Entries))
 	nc := tb.Not(c)
-	for _, e := range a.Entries[n:] {
-		out.Entries = append(out.Entries, MapEntry{Key: e.Key, Present: tb.And(c, e.Present), Val: e.Val})
+	for _, ea := range a.Entries {
+		matched := false
+		for j, eb := range b.Entries {
+			if used[j] || !x.sameKey(ea.Key, eb.Key) {
+				continue
+			}
+			used[j] = true
+			matched = true
+			out.Entries = append(out.Entries, MapEntry{Key: ea.Key, Present: tb.Ite(c, ea.Present, eb.Present), Val: x.ite(c, ea.Val, eb.Val)})
+			break
+		}
+		if !matched {
+			out.Entries = append(out.Entries, MapEntry{Key: ea.Key, Present: tb.And(c, ea.Present), Val: ea.Val})
+		}
 	}
-	for _, e := range b.Entries[n:] {
-		out.Entries = append(out.Entries, MapEntry{Key: e.Key, Present: tb.And(nc, e.Present), Val: e.Val})
+	for j, eb := range b.Entries {
+		if !used[j] {
+			out.Entries = append(out.Entries, MapEntry{Key: eb.Key, Present: tb.And(nc, eb.Present), Val: eb.Val})
+		}
 	}
 	return out
 }
@@ -442,6 +451,9 @@ func (x *Exec) zero(t types.Type) Value {
 	switch u := t.Underlying().(type) {
 	case *types.Basic:
 		switch {
+		case u.Kind() == types.Invalid:
+			// unused component of a range/select tuple
+			return tb.False
 		case u.Info()&types.IsBoolean != 0:
 			return tb.False
 		case u.Info()&types.IsString != 0:
